@@ -92,12 +92,14 @@ def pick_min(rng, maxb, batch):
     used = 8 + sum(16 + len(p['payload']) for p in batch)
     return max(0, min(maxb, rng.choice([0, 0, 8, 24, used - 1, used, used + 1, maxb, maxb - 1, rng.range(0, maxb), 64])))
 
-def enc_case(cid, dev, stream, batch, minb, maxb, api='ENC', pre=None, decode=True):
+def enc_case(cid, dev, stream, batch, minb, maxb, api='ENC', pre=None, decode=True, edits=None):
     lines = ['ENEW', 'EDEV %d' % dev, 'ESTR %d' % stream]
     if pre:
         lines += pre
     for i, p in enumerate(batch):
         lines.append(pkt_line(i, p))
+    if edits:
+        lines += edits
     lines.append('%s %d %d %s' % (api, minb, maxb, ' '.join(str(i) for i in range(len(batch)))))
     if decode:
         lines.append('DFRAMES 1')
@@ -175,6 +177,33 @@ def wrap_cases(rng, tag, thorough):
         maxb = r.choice([64, 100])
         batch = [plain_packet(r, ver, r.choice([200, 3 * (maxb - 24), 150]), 1), plain_packet(r, ver, 8, 1), plain_packet(r, ver, 9, 3)]
         cases.append(enc_case('%s%d' % (tag, i), r.below(65536), r.below(256), batch, 0, maxb, pre=pre))
+    return cases
+
+def inplace_edit_cases(rng, tag, n):
+    """packets whose payload is edited IN PLACE after the packet took it over (non-const getPayload() + EthernetPayload::setData, the
+    idiom of example/main.cpp): the payload grows past the frame, shrinks, or keeps its size; then the batch is encoded and decoded"""
+    cases = []
+    for i in range(n):
+        r = rng.fork('%s%d' % (tag, i))
+        maxb = r.choice([64, 100, 256, 1500])
+        ver = r.range(1, 255)
+        batch = []
+        edits = []
+        for j in range(r.range(1, 4)):
+            old = r.bytes(r.choice([0, 1, 8, 30, maxb - 40, 200]) if maxb > 60 else 4)
+            p = plain_packet(r, ver, 1, 1)
+            p['pt'] = 8; p['kind'] = 8
+            p['payload'] = eth_payload(flags=0, data=old)
+            if r.chance(3, 4):
+                new = r.bytes(r.choice([0, 1, len(old) + 1, max(0, len(old) - 1), len(old), 3 * maxb, maxb - 30, 300]))
+                edits.append('XETH %d %s' % (j, hx(new)))
+                q = dict(p); q['payload'] = p['payload'][:4] + be(len(new), 2) + new
+                batch.append((p, q))
+            else:
+                batch.append((p, p))
+        c = enc_case('%s%d' % (tag, i), r.below(65536), r.below(256), [a for a, _ in batch], r.choice([0, 0, 64]), maxb, edits=edits)
+        c.meta['batch'] = [b for _, b in batch]      # what the judges expect on the wire: the edited packets
+        cases.append(c)
     return cases
 
 def small_scope_cases(tag, nmax=3):
